@@ -577,7 +577,7 @@ func c02probes(c *core.Ctx) {
 }
 
 func C02(c *core.Ctx) {
-	c.Rule = "generated module sets (main module + submodule + imported module): typedef chains of depth 1–4 over int32/uint8/int64 (ranges), string (length, pattern), enumeration and bits (explicit, missing, zero and negative values; derived subsets), decimal64 (fraction-digits, range), boolean, identityref, leafref, unions of those, each level optionally stating default and units; typedefs at module level, in the submodule, in the imported module (prefixed) and local to a container (also shadowing a module-level name); leaves and leaf-lists of every level, with and without restrictions, default and units of their own, at module level, in containers with local typedefs, and in a grouping used 1–3 times; for every leaf of the compiled tree the effective type read through the accessors (format, ranges, lengths, patterns, enum values, bit positions, union members, leafref path and target format, identityref bases, fraction-digits, default, units) compared with the Lean derivation. non-trivial = leaf whose type is a typedef chain of depth ≥2 or a union; distinct by (module set, leaf)"
+	c.Rule = "generated module sets (main module + submodule + imported module): typedef chains of depth 1–4 over int32/uint8/int64 (ranges), string (length, pattern), enumeration and bits (explicit, missing, zero and negative values; derived subsets), decimal64 (fraction-digits, range), boolean, identityref, leafref, unions of those, each level optionally stating default and units; typedefs at module level, in the submodule, in the imported module (prefixed) and local to a container (also shadowing a module-level name); leaves and leaf-lists of every level, with and without restrictions, default and units of their own, at module level, in containers with local typedefs, and in a grouping used 1–3 times; for every leaf of the compiled tree the effective type read through the accessors (format, ranges, lengths, patterns, enum values, bit positions, union members, leafref path and target format, identityref bases, fraction-digits, default, units) compared with the Lean derivation; bits and enumerations written directly on leaf-lists; unions placed in a module-level typedef (member typedefs with default/units). non-trivial = leaf whose type is a typedef chain of depth ≥2 or a union; distinct by (module set, leaf)"
 	c.Assumptions = append(c.Assumptions,
 		"ranges are compared as written, level by level (their meaning for values is C05); identityref acceptance of derived identities is exercised by C05/C15",
 		"defaults are chosen inside every restriction of their chain so that every generated module set is valid")
